@@ -295,36 +295,6 @@ PROPS["C23"] = {
     ])],
 }
 
-# ------------------------------------------------------------------ probes (not claimed, development only)
-PROPS["PROBE7"] = {"claimed": False, "groups": [dict(ZV_INCRATE, harnesses=[
-    H("bis5", timeout=600, mem_gb=14, recursion_bounds=REC1)])]}
-PROPS["PROBE9"] = {"claimed": False, "groups": [dict(ZV, harnesses=[
-    H("c01_enc_at_p4_k1", timeout=1800, mem_gb=16, recursion_bounds=REC1), H("c01_enc_ay_p3_k2", timeout=1800, mem_gb=16, recursion_bounds=REC1)])]}
-PROPS["PROBE10"] = {"claimed": False, "groups": [dict(ZV, harnesses=[
-    H("c08_leaf_laws", timeout=1200, mem_gb=16), H("c08_leaf_laws_nan_witness", timeout=600), H("c08_leaf_clone_signature", timeout=1200, mem_gb=16)])]}
-PROPS["PROBE11"] = {"claimed": False, "groups": [dict(ZV, harnesses=[
-    H("sp1", timeout=900, mem_gb=14, recursion_bounds=REC1), H("sp2", timeout=900, mem_gb=14, recursion_bounds=REC1), H("sp3", timeout=900, mem_gb=14, recursion_bounds=REC1), H("sp4", timeout=900, mem_gb=14, recursion_bounds=REC1)])]}
-PROPS["PROBE12"] = {"claimed": False, "groups": [dict(ZB_INCRATE, in_crate_file="zbus_address.rs", harnesses=[
-    H("c23_unix_path_is_decoded", timeout=1500, mem_gb=16)])]}
-PROPS["PROBE15"] = {"claimed": False, "groups": [dict(ZB_INCRATE, in_crate_file="zbus_address.rs", harnesses=[
-    H("c10_guid_plain", timeout=2400, mem_gb=20, inline_mod="guid_c10"), H("c10_guid_uuid_forms", timeout=2400, mem_gb=20, inline_mod="guid_c10")])]}
-PROPS["PROBE16"] = {"claimed": False, "groups": [dict(ZV, harnesses=[
-    H("c03_dec_au_p0_le", timeout=3000, mem_gb=20, recursion_bounds=REC1), H("c01_enc_ayu_p4_le", timeout=3000, mem_gb=20, recursion_bounds=REC1), H("c01_enc_v_u_p3_be", timeout=3000, mem_gb=20)])]}
-PROPS["PROBE17"] = {"claimed": False, "groups": [dict(ZV, harnesses=[
-    H("c03_dec_yu_p0_le", timeout=3000, mem_gb=20, recursion_bounds=REC1), H("c03_dec_yu_p5_be", timeout=3000, mem_gb=20, recursion_bounds=REC1)])]}
-PROPS["PROBE18"] = {"claimed": False, "groups": [dict(ZV, harnesses=[
-    H("c03_dec_a_y1_le", timeout=3000, mem_gb=24, recursion_bounds=REC1)])]}
-PROPS["PROBE19"] = {"claimed": False, "groups": [dict(ZV_GV, harnesses=[
-    H("c05_enc_mu_p1_le", timeout=3000, mem_gb=20, recursion_bounds=REC1), H("c02_rt_gv_s_n2_le", timeout=3000, mem_gb=20, recursion_bounds=REC1), H("c02_rt_dbus_s_n2_le", timeout=3000, mem_gb=20, recursion_bounds=REC1)])]}
-PROPS["PROBE20"] = {"claimed": False, "groups": [dict(ZV, harnesses=[
-    H("c03_dyn_o_p0_le", timeout=3000, mem_gb=20, recursion_bounds=REC1)])]}
-PROPS["PROBE8"] = {"claimed": False, "groups": [dict(ZV_INCRATE, harnesses=[
-    H("c07_site_de_variant", timeout=2400, mem_gb=20), H("c07_site_ser_struct", timeout=2400, mem_gb=20), H("c07_site_ser_array", timeout=2400, mem_gb=20),
-    H("c07_site_de_struct", timeout=2400, mem_gb=20), H("c07_site_de_array", timeout=2400, mem_gb=20)])]}
-PROPS["PROBE6"] = {"claimed": False, "groups": [{"crate": "kani/sig", "harnesses": [
-    H("c06_format_catalogue", timeout=2400, mem_gb=16), H("c06_eq_across_representations", timeout=2400, mem_gb=16),
-    H("c06_validate_len1", timeout=3000, mem_gb=16), H("c06_tmpl_a_x", timeout=3000, mem_gb=16), H("c06_tmpl_struct_x", timeout=3000, mem_gb=16)]}]}
-
 # ------------------------------------------------------------------ manifest-level data
 HOOKS = {
     "guard": "cfg(kani)",
@@ -366,7 +336,3 @@ NOT_APPLICABLE = {
     "C38": "transport failures end pending work: about tasks and channels; only the per-read failure part is sequential (covered in C14 where claimed)",
     "C39": "drop / graceful shutdown: lifetime of Arcs across tasks, peer-visible close, executor draining",
 }
-PROPS["PROBE13"] = {"claimed": False, "groups": [dict(ZB_INCRATE, in_crate_file="zbus_message.rs", harnesses=[
-    H("c21_ns_a", timeout=2400, mem_gb=20)])]}
-PROPS["PROBE14"] = {"claimed": False, "groups": [dict(ZB_INCRATE, in_crate_file="zbus_header.rs", harnesses=[
-    H("c13_header_known_sets_exact", timeout=3600, mem_gb=30, recursion_bounds=REC1), H("c13_unknown_flags_witness", timeout=3600, mem_gb=30, recursion_bounds=REC1)])]}
